@@ -12,6 +12,9 @@ Fails(e) ==
   (IF e.panics # <<>> THEN {"panic"} ELSE {})
   \* decoding is a function of the bytes: an earlier key (copied by value) is not changed by a later decode into the same variable, and
   \* verdict and value do not depend on what the destination held before
+  \cup (IF ~e.priorok THEN {"key-serialised-by-the-library-refused-after-other-decodes"} ELSE {})
+  \cup (IF e.afterbadacc # e.acc THEN {"verdict-depends-on-an-earlier-refused-decode"} ELSE {})
+  \cup (IF e.acc /\ e.afterbadacc /\ e.reenc = "ok" /\ e.afterbadre # e.re THEN {"decoded-key-depends-on-an-earlier-refused-decode"} ELSE {})
   \cup (IF ~e.priorstable THEN {"earlier-key-changed-by-a-later-decode-into-the-same-variable"} ELSE {})
   \cup (IF e.usedacc # e.acc THEN {"verdict-depends-on-what-the-destination-held-before"} ELSE {})
   \cup (IF e.acc /\ e.usedacc /\ e.reenc = "ok" /\ e.usedre # e.re THEN {"decoded-key-depends-on-what-the-destination-held-before"} ELSE {})
